@@ -231,6 +231,11 @@ async fn write_file(fm: &FileManager, file_type: FileType, data: &[u8]) -> Resul
 	file.write_all(data)
 		.await
 		.map_err(|e| Error::from(e).prefix(&path.display().to_string()))?;
+	// tokio::fs::File buffers its writes: the data has reached the file, and a failed write is reported, only
+	// once the file has been flushed.
+	file.flush()
+		.await
+		.map_err(|e| Error::from(e).prefix(&path.display().to_string()))?;
 	if cfg!(unix) {
 		set_owner(fm, &path, file_type).map_err(|e| e.prefix(&path.display().to_string()))?;
 	}
